@@ -95,6 +95,8 @@ def run(root, cmd, args, disk=DISK, timeout=60):
     obs["ndiag"] = len(ds)
     obs["stderr"] = r["stderr"][-1500:]
     obs["stdout_head"] = r["stdout"][:200]
+    import hashlib
+    obs["stdout_sha"] = hashlib.sha1(r["stdout"].encode("utf-8", "replace")).hexdigest()[:16]
     return obs
 
 
